@@ -12,7 +12,7 @@
    addressed to ANY simulation of the world (original or derived), for any
    number n of source-frequency slots.  In-memory mode ([init_world n false]). *)
 From Coq Require Import ZArith List Bool Arith.
-From V Require Import Model.SimMachine Proofs.SimMachine.
+From V Require Import Model.SimMachine Proofs.SimMachine Model.SimFault Proofs.SimFault.
 Import ListNotations.
 
 (* --- coherence invariant: every cached tag is the quantity of the CURRENT
@@ -204,3 +204,80 @@ Theorem copy_step_changes_original_file_refuted :
                  skipn 1 (enc_world w).
 Proof. exact refuted_file_copy_step. Qed.
 Print Assumptions copy_step_changes_original_file_refuted.
+
+(* ===================== operations that RAISE mid-way (Model/SimFault.v) ===== *)
+(* [fstep fin q w (k, o, Some fl)]: operation o on simulation k during which the
+   fault fl is armed (FBatch kd: the first batch of solves of kind kd raises on
+   entry; FWarn: the gradient computation raises at its start; FIo: to_file
+   raises in io after serialising).  [fin = true]: jtvec restores data.residual,
+   the gradient cache and drops the back-propagated fields in a `finally`.
+   Histories below mix completed and failed operations on any simulation. *)
+
+(* --- the coherence invariant survives every operation, completed or failed *)
+Theorem inv_step_faults : forall w kof, Inv w -> Inv (fst (fstep true fixed w kof)).
+Proof. exact inv_fstep_proof. Qed.
+Print Assumptions inv_step_faults.
+
+(* --- history independence for histories that include failed operations: whatever
+       raised on the way, every simulation afterwards reports the synthetic data,
+       misfit and gradient of a freshly created simulation with its model *)
+Theorem history_independence_with_failed_operations : forall n m0 ops k s qu,
+  nth_error (w_sims (frun true fixed (init_world n false m0) ops)) k = Some s ->
+  ask fixed (frun true fixed (init_world n false m0) ops) k qu
+  = ask fixed (init_world n false (s_model s)) 0 qu.
+Proof. exact history_independence_faults_proof. Qed.
+Print Assumptions history_independence_with_failed_operations.
+
+(* --- a jtvec during which anything raises leaves the gradient cache as it was, the
+       model as it was, and data.residual (if present) the residual -- never w/weights *)
+Theorem failed_jtvec_restores : forall w k wi fl s, Inv w -> nth_error (w_sims w) k = Some s ->
+  exists s', nth_error (w_sims (fst (fstep true fixed w (k, OJtvec wi, Some fl)))) k = Some s' /\
+             s_gradient s' = s_gradient s /\ s_model s' = s_model s /\
+             (forall t, s_residual s' = Some t -> t = Residual (s_model s)) /\
+             Inv_sim (w_n w) s'.
+Proof. exact failed_jtvec_restores_proof. Qed.
+Print Assumptions failed_jtvec_restores.
+
+(* --- a failed (or completed) computation never changes the model of its simulation *)
+Theorem failed_operation_keeps_model : forall w k o fl s, Inv w -> nth_error (w_sims w) k = Some s ->
+  (forall m a r, o <> OSetModel m a r) -> (forall x d, o <> OExport x d) -> (forall c, o <> OClean c) ->
+  exists s', nth_error (w_sims (fst (fstep true fixed w (k, o, Some fl)))) k = Some s' /\
+             s_model s' = s_model s.
+Proof. exact fstep_keeps_model_proof. Qed.
+Print Assumptions failed_operation_keeps_model.
+
+(* --- ... and leaves every other simulation of the world alone (any variant) *)
+Theorem failed_operation_leaves_others : forall fin q w k o f j, j <> k -> j < length (w_sims w) ->
+  nth_error (w_sims (fst (fstep fin q w (k, o, f)))) j = nth_error (w_sims w) j.
+Proof. exact fstep_others_proof. Qed.
+Print Assumptions failed_operation_leaves_others.
+
+(* --- non-vacuity: an 11-step history in which EVERY armed fault fires (forward, back-propagation
+       and jvec batches, the gradient warning inside jtvec, io), on two simulations with different
+       models; afterwards every query is the fresh one *)
+Example failed_operations_nonvacuous :
+  frets (init_world 2 false 0) ex_fault_ops =
+  [RErr EInj; RErr EInj; RErr EInj; RNone; RErr EInj; RErr EInj; RErr EFile; RNew 1; RNone;
+   RErr EInj; RErr EInj]
+  /\ (let w := frun true fixed (init_world 2 false 0) ex_fault_ops in
+      ask fixed w 0 QGradient = (RVal (Grad 0), []) /\ ask fixed w 0 QMisfit = (RVal (Misfit 0), []) /\
+      ask fixed w 1 QGradient = (RVal (Grad 1), []) /\
+      ask fixed w 1 QSynthetic = (RNone, [Syn 1 0; Syn 1 1])).
+Proof. exact ex_faults_fire. Qed.
+Print Assumptions failed_operations_nonvacuous.
+
+(* --- without `finally` (state restored only when the body of jtvec finishes) the property
+       fails: [misfit; jtvec 0 whose back-propagation raises], then gradient returns J^T w *)
+Theorem jtvec_restore_on_success_only_refuted : exists ops k qu,
+  ask fixed (frun false fixed (init_world 2 false 0) ops) k qu <> ask fixed (init_world 2 false 0) 0 qu.
+Proof. exact refuted_nofinally_neq. Qed.
+Print Assumptions jtvec_restore_on_success_only_refuted.
+
+Theorem jtvec_restore_on_success_only_witness :
+  fired (snd (fstep false fixed (frun false fixed (init_world 2 false 0) [(0, OMisfit, None)])
+                    (0, OJtvec 0, Some (FBatch KB)))) = true /\
+  ask fixed (frun false fixed (init_world 2 false 0) [(0, OMisfit, None); (0, OJtvec 0, Some (FBatch KB))])
+      0 QGradient = (RVal (Jt 0 0), []) /\
+  ask fixed (init_world 2 false 0) 0 QGradient = (RVal (Grad 0), []).
+Proof. exact refuted_nofinally. Qed.
+Print Assumptions jtvec_restore_on_success_only_witness.
